@@ -356,11 +356,11 @@ def _execute(spec):
                             # doing (budgets here are far above what the solves need)
                             injected = lambda: sum(v for kf, v in sim.fired.items() if kf not in ("budget_exhausted", "alarm_fired"))
                             f0 = injected()
-                            m.solve()
+                            ret = m.solve()
                             st = bool(m.is_solved())
                             ob = canon(m.get_objective_value()) if st else None
                             nr = _summ_solution(op["class"] if "class" in op else I["class"], m.get_solution()) if st else None
-                            I["solves"].append({"solved": st, "objective": ob, "routes": nr, "faulted": injected() > f0, "inv": [a, sim.inv]})
+                            I["solves"].append({"solved": st, "objective": ob, "routes": nr, "faulted": injected() > f0, "inv": [a, sim.inv], "returned": None if ret is None else bool(ret)})
                             # a re-solve may legitimately deliver another optimum: getters are compared between solves only
                             I["sols"].append(None)
                             I["objs"].append(None)
@@ -423,7 +423,7 @@ def _execute(spec):
                         counters["solver_not_truthful_discrepancy_dismissed"] = counters.get("solver_not_truthful_discrepancy_dismissed", 0) + 1
         clean = [s for s in I["solves"] if not s.get("faulted") and "exc" not in s]
         for a, b in zip(clean[:-1], clean[1:]):
-            if a["solved"] != b["solved"] or not _close(a["objective"], b["objective"]) or a["routes"] != b["routes"]:
+            if a["solved"] != b["solved"] or not _close(a["objective"], b["objective"]) or a["routes"] != b["routes"] or a.get("returned") != b.get("returned"):
                 V("second_solve_differs", cname, {"first": a, "second": b})
                 break
         if not any(s.get("faulted") for s in I["solves"]):
